@@ -367,9 +367,13 @@ def parse_youtube_url(url, fix_common_mistakes=True):
         if len(splitted_path) < 2 or not splitted_path[1]:
             return None
 
-        name = splitted_path[1]
+        name = splitted_path[1].lstrip("@")
 
-        return YoutubeChannel(id=None, name=name.lstrip("@"))
+        # NOTE: nothing is left of a bare "@"
+        if not name:
+            return None
+
+        return YoutubeChannel(id=None, name=name)
 
     elif path.startswith("/channel/"):
         splitted_path = pathsplit(path)
@@ -405,7 +409,13 @@ def parse_youtube_url(url, fix_common_mistakes=True):
             if name in YOUTUBE_CHANNEL_NAME_BLACKLIST:
                 return
 
-            return YoutubeChannel(id=None, name=name.lstrip("@"))
+            name = name.lstrip("@")
+
+            # NOTE: nothing is left of a bare "@"
+            if not name:
+                return
+
+            return YoutubeChannel(id=None, name=name)
 
 
 def extract_video_id_from_youtube_url(url):
